@@ -296,9 +296,19 @@ def evalCmd (body : String) : String :=
   | none => "bad-sexp"
   | some es =>
     let rdFuel := body.length + 16
+    -- `(modelparser)`: evaluate the tree the MODEL's parser builds from the source text instead of
+    -- the implementation's own tree (used where a parse-time rewrite could hide an evaluation defect)
+    let ownTree : Option Op :=
+      match field? "modelparser" es, field? "src" es with
+      | some _, some [.atom h] =>
+        (match unhex h with
+         | some src => (match parseLazy LexSt.init (Str.rstrip src) with | .ok t => some t | _ => none)
+         | none => none)
+      | _, _ => none
     match field? "budget" es, field? "rng" es, field? "tree" es, field? "names" es with
     | some [.atom b], some [.atom r], some [t], some [nm] =>
-      (match (if b == "default" then some defaultBudget else readNat? b), readNat? r, readOp rdFuel t with
+      (match (if b == "default" then some defaultBudget else readNat? b), readNat? r,
+             (match field? "modelparser" es with | some _ => ownTree | none => readOp rdFuel t) with
        | some budget, some rng, some ast =>
          (match readVal rdFuel { heap := #[], objs := [] } nm with
           | some (.ref namesAddr, st1) =>
